@@ -50,12 +50,40 @@ def types():
     return t
 
 
+def check_ne_pair(run, S, name, spec, kw):
+    """x_ne(a, b, tol) returns, on every path, what !x_eq(a, b, tol) returns"""
+    from c09 import trees_equal
+    from core import paths_agree
+    if spec[1] == 'ref':
+        run.use_root(S, name)
+        return
+    refname = name.replace('__ne__', '__nref__', 1)
+    for cut in ('', '_mv', '_m', '_p'):
+        cand = refname[:len(refname) - len(cut)] if cut and refname.endswith(cut) else (refname if not cut else None)
+        if cand and cand in S.roots:
+            refname = cand
+            break
+    rc, rr = run.use_root(S, name), run.use_root(S, refname)
+    if rc is None or rr is None:
+        run.ob('%s:%s:present' % (PROP, name), False, rule='root-present', expected='root', found='missing')
+        return
+    ok, msg = trees_equal(S, Conv(S), rc['out'], rr['out'])
+    if ok:
+        run.ob('%s:%s:negation' % (PROP, name), True, rule='K6 sibling agreement', expected='x_ne(a, b) == !x_eq(a, b)', found='equal', where=rc.get('span'))
+    else:
+        paths_agree(run, S, '%s:%s:negation' % (PROP, name), rc['out'], rr['out'], 'K6 sibling agreement, path by path: x_ne(a, b) == !x_eq(a, b)', where=rc.get('span'))
+
+
 def build():
     h = Harness(PROP)
     g = '<S: BaseFloat>'
     for tag, T, kind in types():
         for tr, (meth, params, names, ntol) in TRAITS.items():
             h.root('%s__%s' % (meth, tag), g + '(a: &%s, b: &%s, %s) -> bool' % (T, T, ', '.join(params)), 'a.%s(b, %s)' % (meth, ', '.join(names)), ('approx', tr, kind))
+            # "unequal" is the negation: x_ne(a, b) must be !x_eq(a, b), whether it is approx's provided method or an override
+            mne = meth[:-2] + 'ne'
+            h.root('ne__%s__%s' % (meth, tag), g + '(a: &%s, b: &%s, %s) -> bool' % (T, T, ', '.join(params)), 'a.%s(b, %s)' % (mne, ', '.join(names)), ('ne_pair', 'code'))
+            h.root('nref__%s__%s' % (meth, tag), g + '(a: &%s, b: &%s, %s) -> bool' % (T, T, ', '.join(params)), '!a.%s(b, %s)' % (meth, ', '.join(names)), ('ne_pair', 'ref'))
     # predicates
     for tag, T, kind in types():
         if kind[0] in ('vec', 'mat', 'quat') and not tag.startswith('b'):
@@ -368,9 +396,11 @@ def run(tier):
     run = Run(PROP, tier, 'other')
     h = build()
     mono_ = h.monomorphise(['f32', 'f64'], bound='<S: BaseFloat>', kinds=None, method_syntax=True, soft=True)   # concrete scalar types, both spellings: what a user of f32 / f64 really gets
-    S, inv, meta = facts.extract(PROP, h.src())
+    S, inv, meta = facts.extract(PROP, h.src(), inventory=True)
+    ap_impls = [i for i in inv.get('impls', []) if i['trait'] in ('approx::abs_diff_eq::AbsDiffEq', 'approx::relative_eq::RelativeEq', 'approx::ulps_eq::UlpsEq')]
+    run.notes['overridden_ne'] = sorted('%s for %s: %s' % (i['trait'].split('::')[-1], i['self'], x) for i in ap_impls for x in i['items'] if x.endswith('_ne'))
     report_dropped(run, meta, h)
-    run_specs(run, S, h, custom={'approx': check_approx, 'finite': check_finite, 'ulps_const': check_ulps_const, 'eq_zero': check_eq_zero, 'diagonal': check_diagonal,
+    run_specs(run, S, h, custom={'ne_pair': check_ne_pair, 'approx': check_approx, 'finite': check_finite, 'ulps_const': check_ulps_const, 'eq_zero': check_eq_zero, 'diagonal': check_diagonal,
                                  'symmetric': check_symmetric, 'invertible': check_invertible, 'perpendicular': check_perpendicular})
     run.floor('approx_impls', len([n for n in run.roots if '_eq__' in n]), 57)
     run.floor('roots', len(run.roots), len(h.specs))
